@@ -41,6 +41,8 @@ static std::string oracle(const Case& c) {
         std::string pw = c.bytes("pw"); if (pw.find('\0') != std::string::npos) pw = pw.substr(0, pw.find('\0'));
         polyseed_crypt(s0, pw.c_str()); polyseed_crypt(s0, pw.c_str());
     }
+    // the KDF inputs depend on the seed only: reconfiguring the enabled features between obtaining the seed and deriving the key must not matter
+    if (c.has("kmask")) polyseed_enable_features((unsigned)c.u("kmask"));
     k.kdf.clear();
     bool noaccess = c.u("keymode") == 1 || ksize > 4096;
     std::vector<uint8_t> buf; uint8_t* key;
@@ -62,7 +64,7 @@ static std::string oracle(const Case& c) {
         else if (which == 1) coin2 = (coin ^ (1u << ((c.u("flip") >> 2) % 11))) & 2047u;
         else if (which == 2) w2.birthday ^= 1u << ((c.u("flip") >> 2) % 10);
         else w2.features ^= (1u << ((c.u("flip") >> 2) % 3));
-        lib::SeedPtr s2(g::build_by_create(w2, 7, 0, &err)); if (!s2.p) return "cannot create neighbour seed: " + err;
+        polyseed_enable_features(7); lib::SeedPtr s2(g::build_by_create(w2, 7, 0, &err)); if (!s2.p) return "cannot create neighbour seed: " + err;
         k.kdf.clear(); k.kdf_mode = deps::KDF_NOTOUCH; polyseed_keygen(s2, (polyseed_coin)coin2, 32, NOACCESS + 4096);
         if (k.kdf.size() != 1) return "keygen invoked the KDF a wrong number of times";
         if (k.kdf[0].pw == kc.pw && k.kdf[0].salt == kc.salt) return "two seeds differing only in " + std::string(which == 0 ? "secret" : which == 1 ? "coin" : which == 2 ? "birthday" : "features") + " produce identical KDF inputs";
@@ -70,7 +72,7 @@ static std::string oracle(const Case& c) {
     alt.reset(); s0.reset();  
     bool nt = want.birthday > 511 || coin > 2 || feat || path != "created" || ksize != 32;
     ev.eval(); ev.count("path:" + path); ev.count(noaccess ? "key:no-access-page" : "key:patterned"); ev.count("ksize:" + std::to_string(ksize));
-    if (want.birthday > 511) ev.count("birthday>511"); if (nt) { ev.nt(c); ev.sample("path:" + path, c); } else ev.count("trivial");
+    if (want.birthday > 511) ev.count("birthday>511"); if (c.has("kmask")) ev.count("mask-changed-before-keygen"); if (nt) { ev.nt(c); ev.sample("path:" + path, c); } else ev.count("trivial");
     return "";
 }
 
@@ -81,7 +83,7 @@ static void run() {
         size_t ks = *rc::gen::element<size_t>(32, 32, 0, 1, 16, 33, 64, 4096, (size_t)-1 / 2, 31, 65);
         std::string path = *rc::gen::element<std::string>("created", "decoded", "loaded", "crypt2");
         Case c; c.set("secret", hex(sec)); c.set("birthday", (uint64_t)bd); c.set("features", feat); c.set("coin", (uint64_t)coin); c.set("ksize", (uint64_t)ks); c.set("path", path);
-        c.set("lang", REG->at(*g::lang_index()).name_en); c.set("pcoin", (uint64_t)*g::coin()); c.set("pw", hex(*rc::gen::container<std::string>(rc::gen::inRange<char>(32, 127)))); c.set("keymode", *in_range<unsigned>(0, 2)); c.set("flip", *vf::u64() % 1000003); c.set("randtop", *in_range<unsigned>(0, 4));
+        c.set("lang", REG->at(*g::lang_index()).name_en); c.set("pcoin", (uint64_t)*g::coin()); c.set("pw", hex(*rc::gen::container<std::string>(rc::gen::inRange<char>(32, 127)))); c.set("keymode", *in_range<unsigned>(0, 2)); c.set("flip", *vf::u64() % 1000003); c.set("randtop", *in_range<unsigned>(0, 4)); if (*in_range<int>(0, 2)) c.set("kmask", *in_range<unsigned>(0, 8));
         set_current(c); std::string m = oracle(c); if (!m.empty()) VF_FAIL(c, m);
     });
 }
